@@ -137,7 +137,8 @@ fn main() {
         "profile": profile,
         "jobs": res.jobs,
         "evaluations": rep.evaluations,
-        "distinct_nontrivial": rep.nontrivial.len(),
+        "distinct_nontrivial": rep.nontrivial.len() as u64 + rep.nontrivial_counted,
+        "distinct_by_construction": rep.nontrivial_counted,
         "nontrivial_hashes": if rep.nontrivial.len() <= 200_000 { rep.nontrivial.iter().map(|h| format!("{:x}", h)).collect::<Vec<_>>() } else { vec![] },
         "counters": rep.counters,
         "samples": rep.samples,
